@@ -86,7 +86,9 @@ pub fn bad_request(g: &mut Rng, id: &str) -> (Vec<u8>, String) {
             // the refusal is decided by the head alone: a body that is announced but withheld
             // (a client sending Expect waits for a status first) must not delay the 417
             let cl = *g.pick(&[0usize, 0, 5, 1024, 1025, 70000]);
-            (raw(&["POST /e HTTP/1.1".to_string(), idl, format!("{}: {}", name, val), format!("Content-Length: {}", cl)], b""), if cl == 0 { "bad_expect".into() } else { "bad_expect_body_withheld".into() })
+            // the expectation is refused whatever the version says
+            let ver = *g.pick(&["HTTP/1.1", "HTTP/1.1", "HTTP/1.0"]);
+            (raw(&[format!("POST /e {}", ver), idl, format!("{}: {}", name, val), format!("Content-Length: {}", cl)], b""), if cl == 0 { "bad_expect".into() } else { "bad_expect_body_withheld".into() })
         }
     }
 }
@@ -149,7 +151,7 @@ impl Campaign for C10c {
         "C10"
     }
     fn rule(&self) -> &'static str {
-        "seeded scenarios: a pipeline of 1..4 requests with one mutated into a malformed/unsupported class (short request line, unknown version token, version above 1.1, header without colon, non-ASCII byte, Expect other than 100-continue in any letter case) at every position; earlier requests are answered by handler threads after generated virtual delays (plain responses, Expect: 100-continue + as_reader whose interim response is flushed, raw writers flushed part-way) so the automatic response has to wait its turn; in one run of six the client's bytes end 1..4 bytes before the end of the offending head (then waiting, or closing its sending side); generated segmentation; non-trivial = the bad request is not the first of its connection or further requests follow it; distinct = interleaving fingerprint"
+        "seeded scenarios: a pipeline of 1..4 requests with one mutated into a malformed/unsupported class (short request line, unknown version token, version above 1.1, header without colon, non-ASCII byte, Expect other than 100-continue in any letter case, on HTTP/1.1 and HTTP/1.0 requests) at every position; earlier requests are answered by handler threads after generated virtual delays (plain responses, Expect: 100-continue + as_reader whose interim response is flushed, raw writers flushed part-way) so the automatic response has to wait its turn; in one run of six the client's bytes end 1..4 bytes before the end of the offending head (then waiting, or closing its sending side); generated segmentation; non-trivial = the bad request is not the first of its connection or further requests follow it; distinct = interleaving fingerprint"
     }
     fn runs(&self, tier: Tier) -> u64 {
         match tier {
